@@ -115,6 +115,9 @@ def stepTyped (t : TRing Int) (isChar : Bool) (w : List String) : Option (TRing 
   | ["move"] =>
       let (n, old) := t.move
       pure (n, s!"{old.buf.length} {old.r.size.toNat}")
+  | ["moveback", n] => do   -- move-construct another ring from x, then x.resize(n) and carry on with x
+      let n ← n.toNat?
+      pure (TRing.resize 0 t.move.2 n, "-")
   | ["write", d] => do
       let d ← parseBytes? d
       let (r', buf', n) ← ringWrite t.r t.buf (d.map fun b => b.toInt)
@@ -190,7 +193,7 @@ def lifeScript (l : VRing Int) (n : Nat) : List Char → Nat → Option (VRing I
     | 'o' | 'O' => (l.pop 0).bind fun l' => lifeScript l' n rest k
     | 'a' => lifeScript l.pushSelf n rest k
     | 'c' => (VRing.clear 0 (l.t.r.size.toNat + 1) l).bind fun l' => lifeScript l' n rest k
-    | 'z' => lifeScript (VRing.resize 0 l n) n rest k
+    | 'z' | 'M' => lifeScript (VRing.resize 0 l n) n rest k   -- M: the elements die with the moved-to object
     | 'y' => lifeScript (VRing.copyAndDrop 0 l) n rest k
     | 'm' => lifeScript l.moveAndDrop n rest k
     | 'g' => lifeScript (VRing.assignAndDrop 0 l 3) n rest k
